@@ -322,9 +322,15 @@ def run_harness(h, ctx, playback=False, only_props=None):
         ctx["mem"].release(mem)
 
 
+def props_of(desc):
+    """Property tags of an assertion message: every Cxx in the prefix before the first colon
+    ("C13/C17a: ..."). Empty = untagged (library panic, unwinding assertion...)."""
+    return re.findall(r"C\d\d", desc.split(":")[0]) if re.match(r"C\d\d", desc) else []
+
+
 def prop_of(desc):
-    m = re.match(r"(C\d\d)", desc)
-    return m.group(1) if m else None
+    t = props_of(desc)
+    return t[0] if t else None
 
 
 def classify(h, r, prop):
@@ -344,8 +350,8 @@ def classify(h, r, prop):
     covers = [c for c in r["checks"] if ".cover." in c["name"] or c["name"].endswith(".cover")]
     mine = []
     for c in fails:
-        p = prop_of(c["desc"])
-        if p is None or p == prop:
+        t = props_of(c["desc"])
+        if not t or prop in t:
             mine.append(c)
     if mine:
         return "fail", mine
@@ -564,7 +570,7 @@ def build_evidence(prop, tier, seed, hs, wit, results, per, violations, inconcl,
         chk = r.get("checks", [])
         asserts = [c for c in chk if ".cover" not in c["name"]]
         cov = [c for c in chk if ".cover" in c["name"]]
-        mine = [c for c in asserts if prop_of(c["desc"]) in (None, prop)]
+        mine = [c for c in asserts if not props_of(c["desc"]) or prop in props_of(c["desc"])]
         obligations += len(mine)
         discharged += len([c for c in mine if c["status"] in ("SUCCESS", "UNREACHABLE")])
         covers_total += len(cov)
@@ -577,7 +583,7 @@ def build_evidence(prop, tier, seed, hs, wit, results, per, violations, inconcl,
         samples.append({
             "harness": h["name"], "shape": h.get("shape"), "decides": h.get("decides"), "bounds": h.get("bounds"),
             "assumptions": h.get("assumes", []),
-            "tagged_obligations": sorted({c["desc"] for c in mine if prop_of(c["desc"]) == prop}),
+            "tagged_obligations": sorted({c["desc"] for c in mine if prop in props_of(c["desc"])}),
             "covers": [{"desc": c["desc"], "status": c["status"]} for c in cov],
             "cbmc_checks": len(asserts), "verdict": r.get("verdict"), "verification_time_s": r.get("verification_time_s"),
             "solver_s": r.get("solver_s"), "symex_s": r.get("symex_s"), "sat_queries": r.get("sat_queries"),
